@@ -132,6 +132,25 @@ def gen_big(n, kind, algo, rep, lcp, mem):
     elif kind == "dups":
         pool = [rstr(b"ab\xff", 5) for _ in range(40)]
         strs = [rng.choice(pool) for _ in range(n)]
+    elif kind in ("groups0", "groups2"):
+        # aimed at the branch order of the 16-bit loops (empty / <=1 / zero-termination / < 32 / < RADIX / recurse): duplicate
+        # groups of size 1, 2, 31, 32, 33 of strings that end 0, 1, 2, 3 bytes behind the depth of the 16-bit step; with
+        # "groups2" everything shares two bytes, so the groups meet the SECOND step on the radix stack as well
+        pre = b"ab" if kind == "groups2" else b""
+        gch = b"qrstuvwxyz\xe9\x01"
+        seen = set(); strs = []
+        def group(s, g):
+            if s not in seen: seen.add(s); strs.extend([s] * g)
+        group(pre, rng.choice([1, 2, 31, 32, 33]))
+        for L in (1, 2, 3):
+            for g in (1, 2, 31, 32, 33):
+                for _ in range(2):
+                    group(pre + bytes(gch[rng.below(len(gch))] for _ in range(L)), g)
+        one = bytes([gch[rng.below(len(gch))]])              # a short group and longer groups behind the same first byte
+        group(pre + one, 2); group(pre + one + b"ab", 31); group(pre + one + b"a", 33)
+        while len(strs) < n: strs.append(pre + bytes(b"abc"[rng.below(3)] for _ in range(4 + rng.below(6))))
+        for i in range(len(strs) - 1, 0, -1):                 # shuffle
+            j = rng.below(i + 1); strs[i], strs[j] = strs[j], strs[i]
     else: raise ValueError(kind)
     return mkcase(algo, rep, rng.below(10) if algo == 0 else 0, lcp, mem, 0, strs), (algo, rep, lcp, mem, n, "big-" + kind, kind)
 
@@ -172,7 +191,14 @@ if not ck.replay:
     big = [(65535, "abc", 0, 0, 1, 0), (65536, "nested", 0, 0, 1, 0), (65537, "full", 0, 2, 1, SIZE_MAX),
            (65536, "abc", 5, 1, 1, 0),
            (65536, "abc", 0, 0, 1, 10 ** 5), (65537, "full", 0, 0, 0, 10 ** 6), (65536, "nested", 0, 2, 1, 4096),
-           (65536, "abc", 0, 0, 1, 2 * 10 ** 6), (65537, "dups", 3, 3, 0, 10 ** 7)]
+           (65536, "abc", 0, 0, 1, 2 * 10 ** 6), (65537, "dups", 3, 3, 0, 10 ** 7),
+           # every entry point with the RADIX size threshold, duplicate groups around the 32 threshold at 0..3 bytes behind the step
+           (66000, "groups0", 5, 0, 1, 0),              # radixsort_CI3 directly, C strings in exactly sized heap blocks
+           (66000, "groups2", 5, 2, 1, SIZE_MAX),       # radixsort_CI3, std::string, groups also at the second stack level
+           (66000, "groups2", 3, 1, 1, 0),              # radixsort_CE3 directly
+           (70000, "groups0", 0, 2, 1, 2000000),        # front end: memory excludes CE3 and CE2, admits CI3 (std::string)
+           (70000, "groups2", 0, 2, 1, 2400000),        # front end: memory excludes CE3, admits CE2 on >= 65536 strings
+           (66000, "groups0", 0, 0, 1, 0)]              # front end, no limit: CE3
     if ck.thorough():
         big += [(200000, "abc", 0, 0, 1, 0), (230000, "full", 0, 0, 1, 2050000), (70000, "nested", 5, 3, 1, SIZE_MAX),
                 (65536, "dups", 0, 2, 0, 10 ** 7), (131072, "nested", 3, 1, 1, 0), (65537, "abc", 2, 3, 1, 10 ** 6),
@@ -371,7 +397,7 @@ ck.finish({
             "x size x shape x alphabet, all from VERIF_SEED; memory limits include 0, 1, 64, 4096, 1e5, 1e7, SIZE_MAX and the exact "
             "boundaries use+slack+1 (-1/0/+1) of every fall-back test for the chosen instantiation). Each case runs on the real code "
             "(ASan+UBSan); the Coq-extracted checker check_spl decides SortedPermLcp on the implementation's output (object identity "
-            "by pointer / suffix index); the extracted model runs on the same input (always for n<=300, for larger n on the radix-only "
+            "by pointer / suffix index); the extracted model runs on the same input (always for n<=800, for larger n on the radix-only "
             "paths) and must agree on contents per position and on lcp[1..]. non-trivial = collection with at least two different "
             "strings (suffix sets: text of length >= 4); distinct = distinct case text.",
     "samples": samples,
